@@ -62,6 +62,7 @@ class Spec:
         st.As = {}              # live receiving streams: advertised window
         st.unacked = {}         # sid -> flow-controlled bytes received, not yet acknowledged by the app
         st.reset = set()        # streams the application reset
+        st.ended = set()       # streams whose peer side has ended: no further DATA, the windows stay observable
         st.gone = {}            # their last advertised stream window (the library may still adjust it)
         st.nstreams = 0
         st.resv = set()         # client role: promised streams whose response HEADERS have not arrived (windows exist, no DATA yet)
@@ -72,7 +73,7 @@ class Spec:
     def fingerprint(self, st):
         return fingerprint(st.h.conn, st.Ac, st.acked, tuple(st.pending), tuple(sorted(st.As.items())),
                            tuple(sorted(st.unacked.items())), tuple(sorted(st.reset)), tuple(sorted(st.gone.items())), st.nstreams, st.dead,
-                           tuple(sorted(st.resv)), st.npush)
+                           tuple(sorted(st.resv)), st.npush, tuple(sorted(st.ended)))
 
     def actions(self, st):
         if st.dead:
@@ -80,8 +81,8 @@ class Spec:
         acts = []
         if st.nstreams < self.max_streams:
             acts.append("open")
-        if self.client and st.npush < 1 and any(s % 2 for s in st.As):
-            acts.append("rxpush:%d" % min(s for s in st.As if s % 2))
+        if self.client and st.npush < 1 and any(s % 2 and s not in st.ended for s in st.As):
+            acts.append("rxpush:%d" % min(s for s in st.As if s % 2 and s not in st.ended))
         for sid in sorted(st.resv):
             acts.append("rxresp:%d" % sid)
         for sid in sorted(st.As):
@@ -89,15 +90,18 @@ class Spec:
                 for inc in ("1", "max", "over"):
                     acts.append("incr:%d:%s" % (sid, inc))
                 continue
-            for L in ("1", "A", "A+1"):
-                for p in ("n", "3"):
-                    acts.append("data:%d:%s:%s" % (sid, L, p))
+            if sid not in st.ended:
+                for L in ("1", "A", "A+1"):
+                    for p in ("n", "3", "es"):      # es: unpadded, carrying END_STREAM - charged like any other DATA
+                        acts.append("data:%d:%s:%s" % (sid, L, p))
             for inc in ("1", "7", "max", "over"):
                 acts.append("incr:%d:%s" % (sid, inc))
             for a in ("0", "all", "over", "neg"):
                 acts.append("ack:%d:%s" % (sid, a))
             acts.append("reset:%d" % sid)
         for sid in sorted(st.reset):
+            if sid in st.ended:
+                continue                      # the peer had ended the stream before: it has nothing in flight
             for L in ("1", "A", "A+1"):
                 acts.append("rdata:%d:%s" % (sid, L))
         for inc in ("1", "7", "max", "over"):
@@ -187,14 +191,17 @@ class Spec:
             sid = int(parts[1])
             on_reset = parts[0] == "rdata"
             A = st.Ac if on_reset else min(st.Ac, st.As[sid])
-            pad = None if (on_reset or parts[3] == "n") else int(parts[3])
+            es = (not on_reset) and parts[3] == "es"
+            pad = None if (on_reset or parts[3] in ("n", "es")) else int(parts[3])
             L = {"1": 1, "A": A, "A+1": A + 1}[parts[2]]
             over = 0 if pad is None else pad + 1
             if L < over:
                 L = over
             if L > 2 ** 24 - 1 or L < 0:
                 return Step("data-not-expressible", viols, prune=True)
-            o = h.rx([wire.data(sid, b"x" * (L - over), pad=pad)], ("data", sid, False))
+            o = h.rx([wire.data(sid, b"x" * (L - over), pad=pad, es=es)], ("data", sid, es))
+            if es:
+                st.ended.add(sid)
             fits = L <= A
             if fits:
                 if o.kind != "ok":
@@ -335,6 +342,11 @@ class Spec:
             if acc[sid] != want:
                 bad("window-accessor-mismatch", "after %s: remote_flow_control_window(%d)=%r, advertised min(conn %d, stream %d)=%d" % (
                     lab, sid, acc[sid], st.Ac, st.As[sid], want), after=parts[0])
+        if parts[0] == "data" and parts[3] == "es" and self.client and int(parts[1]) % 2 == 0 and int(parts[1]) in st.As:
+            # a pushed stream is over once the peer ends it (our side never was open): checked one last time above, then
+            # nothing more is demanded of its accessors or of calls on it
+            st.As.pop(int(parts[1]))
+            st.unacked.pop(int(parts[1]), None)
         if viols:
             st.dead = True
         return Step(out, viols)
